@@ -119,6 +119,12 @@ func mutateFrame(rt *rapid.T, b []byte, slots []spec.Slot, muts *[]string) []byt
 			}
 			cur := getN(b, s.Off, s.Width)
 			v := boundary(rt, "slotval", s.Width, cur, len(b)-s.Off)
+			if (s.Class == "type" || s.Class == "subtype") && s.Width <= 2 && rapid.Bool().Draw(rt, "type_dense") {
+				// type / subtype codes: every code of the populated range, not only the neighbours of the
+				// current one (message types 0-29, action types 0-27, Nicira subtypes 0-50: the codes a
+				// dispatcher knows but has no decoder for sit in between)
+				v = uint64(rapid.IntRange(0, 52).Draw(rt, "type_code_dense"))
+			}
 			putN(b, s.Off, s.Width, v)
 			*muts = append(*muts, fmt.Sprintf("slot %s@%d(%s,%dB) %#x->%#x", s.Class, s.Off, tailPath(s.Path), s.Width, cur, v))
 			// adjacent pair: also hit a neighbouring slot half of the time (type+len, len+next type): several
